@@ -112,9 +112,10 @@ class SemiSupervisedOPF(SupervisedOPF):
                             ].predicted_label = self.subgraph.nodes[p].predicted_label
 
                             # As we may have unlabeled nodes, make sure that `q` label equals to `q` predicted label
-                            self.subgraph.nodes[q].label = self.subgraph.nodes[
-                                q
-                            ].predicted_label
+                            if q >= current_n_nodes:
+                                self.subgraph.nodes[q].label = self.subgraph.nodes[
+                                    q
+                                ].predicted_label
 
                             h.update(q, current_cost)
 
